@@ -15,7 +15,7 @@ from __future__ import annotations
 import os
 from typing import Any, Dict, List, Optional, Tuple
 
-from ..core import Ctx, Report, Violation, mix32
+from ..core import Ctx, HarnessError, Report, Violation, mix32
 from .. import gen_enc as G
 
 PROPERTY = "C01"
@@ -293,29 +293,34 @@ def _shard(task: Tuple[int, int, int, str, int]) -> Report:
     return rep
 
 
-def _hyp_raw(seed: int, n: int) -> Report:
+def _raw_test(rep: Report, n: int, label: str = "raw") -> Any:
+    """The raw-bytes @given test (unseeded); driven by Hypothesis (_hyp_raw) and by the covfuzz phase."""
     import hypothesis
     from hypothesis import given, settings, strategies as st, HealthCheck
 
-    rep = Report()
-
-    @hypothesis.seed(seed)
     @settings(max_examples=n, deadline=None, database=None, report_multiple_bugs=False,
               suppress_health_check=list(HealthCheck), phases=[hypothesis.Phase.generate])
     @given(st.binary(min_size=0, max_size=8), st.one_of(st.sampled_from(ADDRS), st.integers(0, 0xFFFFF)))
     def prop(data: bytes, addr: int) -> None:
-        check_bytes(data, addr, rep, True, "raw")
+        check_bytes(data, addr, rep, True, label)
 
-    prop()
+    return prop
+
+
+def _hyp_raw(seed: int, n: int) -> Report:
+    import hypothesis
+
+    rep = Report()
+    hypothesis.seed(seed)(_raw_test(rep, n))()
     return rep
 
 
-def _hyp_history(seed: int, n: int) -> Report:
-    """Decode histories: result for (bytes, addr) is the same before and after arbitrary other decodes."""
+def _history_test(rep: Report, n: int, tag: Optional[str] = None) -> Any:
+    """Decode histories: result for (bytes, addr) is the same before and after arbitrary other decodes.
+    (unseeded @given test; driven by Hypothesis (_hyp_history) and by the covfuzz phase)"""
     import hypothesis
     from hypothesis import given, settings, strategies as st, HealthCheck
 
-    rep = Report()
     valid = st.sampled_from([bytes.fromhex(x) for x in ("dc102030aabb", "32dc102030aabb", "30f08010203040", "21fb80102030", "0c123456",
                                                         "08550800", "32a010", "e90410", "ccf1f2", "0312345f")])
     item = st.tuples(st.one_of(st.binary(min_size=1, max_size=8), valid), st.sampled_from(ADDRS))
@@ -324,7 +329,6 @@ def _hyp_history(seed: int, n: int) -> Report:
         r = consumers(data, addr)
         return r
 
-    @hypothesis.seed(seed)
     @settings(max_examples=n, deadline=None, database=None, report_multiple_bugs=False,
               suppress_health_check=list(HealthCheck), phases=[hypothesis.Phase.generate])
     @given(st.lists(item, min_size=2, max_size=12), st.data())
@@ -369,10 +373,17 @@ def _hyp_history(seed: int, n: int) -> Report:
                                       f"{data.hex()}: first={first[(data, addr)]} again={again}"))
             if isinstance(again.get("info"), int):
                 nt = True
-        rep.case("hist:" + ",".join(x.hex() for x, _ in order) if nt else None, ["kind:history"],
+        rep.case("hist:" + ",".join(x.hex() for x, _ in order) if nt else None, ["kind:history"] + ([tag] if tag else []),
                  {"history": [x.hex() for x, _ in order]} if rep.evaluations % 500 == 1 else None)
 
-    prop()
+    return prop
+
+
+def _hyp_history(seed: int, n: int) -> Report:
+    import hypothesis
+
+    rep = Report()
+    hypothesis.seed(seed)(_history_test(rep, n))()
     return rep
 
 
@@ -439,18 +450,16 @@ def emu_history_violations(ops: List[Any]) -> Tuple[List[Violation], int]:
     return out, fetches
 
 
-def _hyp_emu_history(seed: int, n: int) -> Report:
+def _emu_history_test(rep: Report, n: int, tag: Optional[str] = None) -> Any:
     import hypothesis
     from hypothesis import given, settings, strategies as st, HealthCheck
 
-    rep = Report()
     where = st.one_of(st.sampled_from(["next", "next", "next", "same"]), st.sampled_from([0x1000, 0x1004, 0x2000, 0xFFFF0, 0x0FFFC]))
     code = st.one_of(st.binary(min_size=1, max_size=7),
                      st.sampled_from([bytes([0x00]), bytes([0x08, 0x55]), bytes([0x32, 0xA0, 0x10]), bytes([0x0C, 1, 2, 3]),
                                       bytes([0x56, 0x04]), bytes([0x32]), bytes([0xE3, 0x00, 0x10])]))
     op = st.one_of(st.tuples(st.just("put"), where, code.map(lambda b: b.hex())), st.tuples(st.just("fetch"), where))
 
-    @hypothesis.seed(seed)
     @settings(max_examples=n, deadline=None, database=None, report_multiple_bugs=False,
               suppress_health_check=list(HealthCheck), phases=[hypothesis.Phase.generate])
     @given(st.lists(op, min_size=3, max_size=24))
@@ -460,11 +469,51 @@ def _hyp_emu_history(seed: int, n: int) -> Report:
         for v in vs:
             rep.violate(v)
         puts_after_fetch = any(o[0] == "put" and any(p[0] == "fetch" for p in ops[:k]) for k, o in enumerate(ops))
-        rep.case("emuhist:" + repr(ops) if (fetches >= 2 and puts_after_fetch) else None, ["kind:emu-history"],
-                 {"ops": ops} if rep.evaluations % 400 == 1 else None)
+        rep.case("emuhist:" + repr(ops) if (fetches >= 2 and puts_after_fetch) else None,
+                 ["kind:emu-history"] + ([tag] if tag else []), {"ops": ops} if rep.evaluations % 400 == 1 else None)
 
-    prop()
+    return prop
+
+
+def _hyp_emu_history(seed: int, n: int) -> Report:
+    import hypothesis
+
+    rep = Report()
+    hypothesis.seed(seed)(_emu_history_test(rep, n))()
     return rep
+
+
+# ---------------------------------------------------------------------------------------------- covfuzz phase
+# Coverage-guided driver (vp_harness/covfuzz.py): libFuzzer mutates the byte string from which the SAME three
+# strategies draw, with the decoder package instrumented; cases go to the SAME bodies (check_bytes, the history
+# bodies, emu_history_violations).
+COVFUZZ = True
+COVFUZZ_INSTRUMENT = ["sc62015.pysc62015.instr"]
+COVFUZZ_PREIMPORT = ["sc62015.arch", "sc62015.pysc62015.emulator", "binja_test_mocks.mock_llil",
+                     "binja_test_mocks.eval_llil"]
+
+
+def covfuzz_test(target: str, rep: Report, extra: Dict[str, Any]) -> Any:
+    _preload()
+    if target == "raw":
+        return _raw_test(rep, 1, "covfuzz")
+    if target == "hist":
+        return _history_test(rep, 1, "covfuzz")
+    if target == "emu":
+        return _emu_history_test(rep, 1, "covfuzz")
+    raise HarnessError(f"unknown covfuzz target {target!r}")
+
+
+def _covfuzz_phase(ctx: Ctx) -> Report:
+    from .. import covfuzz as CF
+
+    plan = (("raw", 0, ctx.pick(6, 8), ctx.pick(1000, 20000), 64),
+            ("hist", 1, ctx.pick(5, 4), ctx.pick(200, 4000), 1024),
+            ("emu", 2, ctx.pick(5, 4), ctx.pick(400, 8000), 1024))
+    jobs = [{"target": target, "seeds": [ctx.shard_seed(3000 + 100 * j + i) for i in range(shards)], "runs": runs,
+             "max_len": max_len, "pad_len": max(max_len, 2048), "extra": {}, "budget_s": ctx.pick(20.0, 120.0)}
+            for target, j, shards, runs, max_len in plan]
+    return CF.cov_fuzz_jobs("vp_harness.props.c01", jobs, COVFUZZ_INSTRUMENT, COVFUZZ_PREIMPORT)
 
 
 def _landmark_shard(task: Tuple[int, int, int, str]) -> Report:
@@ -548,6 +597,12 @@ def _raw_task(t: Tuple[str, int, int]) -> Report:
 
 
 def run(ctx: Ctx) -> Report:
+    from .. import covfuzz as CF
+
+    if CF.only_phase() == "covfuzz":
+        rep = _covfuzz_phase(ctx)
+        rep.rule = RULE
+        return rep
     nshards = 64
     tasks = [(i, nshards, ctx.seed, ctx.tier, 0) for i in range(nshards)]
     reports = ctx.pmap(_shard, tasks)
@@ -564,6 +619,8 @@ def run(ctx: Ctx) -> Report:
                                       for j, (k, n) in enumerate((("routine", n_rt), ("stream", n_st), ("preempt", n_pe)))
                                       for i in range(8)])
     rep = ctx.merge_reports(reports)
+    if COVFUZZ:
+        CF.merge_covfuzz(rep, _covfuzz_phase(ctx))
     rep.rule = RULE
     rep.exhaustive = ctx.tier == "thorough"
     rep.extra["structural_heads_total"] = len(G.PRES) * 65536
@@ -574,6 +631,8 @@ def run(ctx: Ctx) -> Report:
         "emulator fetch path = Emulator.decode_instruction on a memory holding the bytes at the address",
         "an accepted instruction is compared across tails only on length/text/mnemonic (not object identity)",
     ]
+    if COVFUZZ:
+        rep.assumptions.append(CF.ASSUMPTION)
     return rep
 
 
